@@ -29,6 +29,8 @@ import (
 	"verif/mon"
 )
 
+const blockedBound = 90 * time.Second
+
 const (
 	workers     = 16
 	cpuBoundSec = 20.0
@@ -71,15 +73,24 @@ func worker(idx int, thorough bool, seed int64, work string, skipEntry, skipOrd 
 	var seqStartCPU atomic.Uint64 // float bits *1000
 	go func() {                   // watchdog on CPU time inside one call
 		last := int64(-1)
+		lastChange := time.Now()
 		for {
 			time.Sleep(200 * time.Millisecond)
 			s := seq.Load()
 			if s != last {
 				last = s
+				lastChange = time.Now()
 				continue
 			}
 			if cpuSeconds()-float64(seqStartCPU.Load())/1000 > cpuBoundSec {
-				os.WriteFile(filepath.Join(work, fmt.Sprintf("c07.stuck.%d", idx)), []byte("stuck"), 0o644)
+				os.WriteFile(filepath.Join(work, fmt.Sprintf("c07.stuck.%d", idx)), []byte("cpu"), 0o644)
+				os.Exit(3)
+			}
+			// a call that neither returns nor burns CPU is blocked (self-deadlock on a lock, a
+			// read that can never complete): bounded progress in wall time, 90 s for a call
+			// that normally takes microseconds; the parent replays it alone before reporting
+			if s%2 == 1 && time.Since(lastChange) > blockedBound {
+				os.WriteFile(filepath.Join(work, fmt.Sprintf("c07.stuck.%d", idx)), []byte("blocked"), 0o644)
 				os.Exit(3)
 			}
 		}
@@ -293,7 +304,7 @@ func main() {
 					// replay alone in a fresh child before reporting
 					exit2, _ := runChild(bin, work, 100+idx, []string{fmt.Sprintf("VERIF_C07_WORKER=%d", 100+idx), "VERIF_C07_SINGLE=" + e.Name + " " + hex.EncodeToString(in), "VERIF_WORK=" + work})
 					if exit2 == 3 {
-						r.Violation("timeout:"+e.Name, fmt.Sprintf("%s did not return within %.0f s of CPU on a %d-byte input (%s)", e.Name, cpuBoundSec, len(in), class), cs)
+						r.Violation("timeout:"+e.Name, fmt.Sprintf("%s did not return on a %d-byte input (%s): more than %.0f s of CPU inside the call, or blocked for more than %v without progress; reproduced alone in a fresh process", e.Name, len(in), class, cpuBoundSec, blockedBound), cs)
 					} else {
 						r.Inconclusive(fmt.Sprintf("%s exceeded the CPU bound once but returned when replayed alone", e.Name))
 					}
